@@ -151,7 +151,7 @@ def outcome_oracle(ctx, name, cases, impl):
             if fv is not None and fv < mv:
                 return o == "ERR2"
             return o.startswith("OK %d %d " % (want_v, e)) and o.split()[4] == str(m)
-        tr.append(("ominver %d %d %d" % (m, e, len(data)), exp, {"case": c[:300]}))
+        tr.append(("ominver %d %d %d" % (m, e, len(data)), exp, {"case": c}))
     ctx.oracle(name, tr)
 
 
@@ -296,7 +296,7 @@ def symbol_oracles(ctx, cases, outs, which):
         if b is None:
             continue
         p = c.split()
-        desc = {"case": c[:2000]}
+        desc = {"case": c}
         mat = "%d %s" % (b["n"], b["hex"])
         data = case_payload(c)
         if "decode" in tr:
@@ -338,7 +338,7 @@ def no_panic(ctx, name, cases, outs):
     ctx.count_oracle(name + "-nopanic", len(cases))
     for c, o in zip(cases, outs):
         if o.startswith("PANIC") or o.startswith("CRASH"):
-            ctx.direct_failure(name + "-nopanic", {"case": c[:2000]}, "implementation " + o)
+            ctx.direct_failure(name + "-nopanic", {"case": c}, "implementation " + o)
 
 
 # ------------------------------------------------------------------------------------------ extraction self-check
@@ -422,10 +422,10 @@ def run_C02(ctx):
         p = c.split()
         q = o.split()
         if len(q) == 3 and q[0] == "OK":
-            tr.append(("orsstream %s %s %s %s" % (p[2], p[1], q[1], p[3]), "1", {"case": c[:400]}))
+            tr.append(("orsstream %s %s %s %s" % (p[2], p[1], q[1], p[3]), "1", {"case": c}))
             ctx.count_oracle("structure_tail_zero", 1)
             if q[2] != "0":
-                ctx.direct_failure("structure_tail_zero", {"case": c[:400]}, "non-zero bytes after the codewords: " + q[2])
+                ctx.direct_failure("structure_tail_zero", {"case": c}, "non-zero bytes after the codewords: " + q[2])
     ctx.oracle("structure_blocks", tr)
 
 
@@ -526,7 +526,16 @@ def run_C05(ctx):
                         cases.append(build_case(m, e, fv, None, data))
                     if v > 0:
                         cases.append(build_case(m, e, v - 1, None, payload(rng, m, hi)))
+                    # the forced version holds exactly hi characters: hi + 1 .. hi + 3 must be refused (every residue mod 3)
+                    for d in (1, 2, 3):
+                        cases.append(build_case(m, e, v, None, payload(rng, m, hi + d)))
                     cases.append(build_case(m, e, min(39, v + 1), None, payload(rng, m, hi)))
+        if ctx.quick:
+            for m in range(3):
+                for e in range(4):
+                    for v in range(40):
+                        if v not in (0, 1, 8, 9, 25, 26, 38, 39):
+                            cases.append(build_case(m, e, v, None, payload(rng, m, cp[m][e][v] + 1)))
         # a forced mode that is less dense than the automatic choice: capacity must follow the FORCED mode
         for fm, nat in [(2, 0), (2, 1), (1, 0)]:
             for e in range(4):
@@ -558,7 +567,7 @@ def run_C05(ctx):
             if fv >= mv:
                 return o.startswith("OK %d " % fv)
             return o == "ERR2"
-        tr.append(("ominver %d %d %d" % (m, e, n), exp, {"case": c[:300]}))
+        tr.append(("ominver %d %d %d" % (m, e, n), exp, {"case": c}))
     ctx.oracle("build_outcome", tr)
     symbol_oracles(ctx, cases, impl, ["decode"])
 
@@ -591,7 +600,7 @@ def run_C06(ctx):
             m, e, v = int(p[1]), int(p[2]), int(p[3])
             d = T["data_codewords"][e][v]
             got_d = q[3][:2 * d]
-            tr.append(("oisocw %d %d %d %s" % (m, v, e, p[4]), got_d, {"case": c[:300]}))
+            tr.append(("oisocw %d %d %d %s" % (m, v, e, p[4]), got_d, {"case": c}))
     ctx.oracle("iso_codewords", tr)
     # push_bits sequences
     pb = []
@@ -620,7 +629,7 @@ def run_C06(ctx):
     outs = run_exe(FQM, [t[0] for t in tr], "o_dcw")
     tr2 = []
     for (oc, _, (c, b)), got in zip(tr, outs):
-        tr2.append(("oisocw %d %d %d %s" % (b["m"], b["v"], b["e"], c.split()[5]), got, {"case": c[:300]}))
+        tr2.append(("oisocw %d %d %d %s" % (b["m"], b["v"], b["e"], c.split()[5]), got, {"case": c}))
     ctx.oracle("symbol_data_codewords", tr2)
 
 
@@ -669,7 +678,7 @@ def run_C07(ctx):
         q = o.split()
         k = len(p[2]) // 2 - 1
         if len(q) == 2 and q[0] == "OK":
-            tr.append(("oec %s %d" % (p[1], k), q[1][-2 * k:], {"case": c[:600]}))
+            tr.append(("oec %s %d" % (p[1], k), q[1][-2 * k:], {"case": c}))
     ctx.oracle("poly_rem", tr)
     # the EC codewords actually emitted for every (version, level): structure() on all 160 layouts, blocks read back by the
     # Table 9 de-interleaver must have zero syndromes and carry the data
@@ -686,9 +695,9 @@ def run_C07(ctx):
         p = c.split()
         q = o.split()
         if len(q) == 3 and q[0] == "OK":
-            tr.append(("orsstream %s %s %s %s" % (p[2], p[1], q[1], p[3]), "1", {"case": c[:400]}))
+            tr.append(("orsstream %s %s %s %s" % (p[2], p[1], q[1], p[3]), "1", {"case": c}))
         else:
-            ctx.direct_failure("structure", {"case": c[:400]}, o[:60])
+            ctx.direct_failure("structure", {"case": c}, o[:60])
     ctx.oracle("emitted_ec_is_remainder", tr)
 
 
@@ -716,9 +725,9 @@ def run_C08(ctx):
         b = pl["place %s %s" % (p[1], p[3])].split()
         a = o.split()
         if len(a) == 4 and len(b) == 4 and a[0] == "OK":
-            tr.append(("omaskiso %s %s %s %s" % (p[2], a[1], b[2], a[2]), "1", {"case": c[:200]}))
+            tr.append(("omaskiso %s %s %s %s" % (p[2], a[1], b[2], a[2]), "1", {"case": c}))
         else:
-            ctx.direct_failure("mask", {"case": c[:200]}, o[:60])
+            ctx.direct_failure("mask", {"case": c}, o[:60])
     ctx.oracle("iso_mask", tr)
     # through the public API: same payload, two forced masks
     bc = []
@@ -764,8 +773,26 @@ def run_C09(ctx):
         if rng.random() < 0.5 and n > 0:
             d[rng.randrange(n)] = rng.randrange(256)
         cases.append("best " + hexs(bytes(d)))
+    # long inputs: lengths around every power of two and every V40 capacity (a length-dependent shortcut in the scanner
+    # would sit at such a threshold), pure and with one foreign byte at the start / middle / end
+    lens = set()
+    for k in range(4, 14):
+        lens |= {2 ** k - 1, 2 ** k, 2 ** k + 1}
+    for cap in (1273, 1663, 2331, 2953, 1852, 2420, 3391, 4296, 3057, 3993, 5596, 7089):
+        lens |= {cap - 1, cap, cap + 1}
+    lens |= {1000, 3000, 5000, 6000, 7200, 7500}
+    if not ctx.quick:
+        lens |= set(range(100, 8200, 100)) | {10000, 20000, 65535, 65536, 65537}
+    for ln in sorted(lens):
+        for base in (b"7", b"K", b"k"):
+            cases.append("best " + hexs(base * ln))
+            for pos in (0, ln // 2, ln - 1):
+                for b in ((0x4B, 0x6B, 0xFC) if ctx.quick else (0x20, 0x4B, 0x6B, 0x3A, 0x2F, 0xBA, 0xFC)):
+                    d = bytearray(base * ln)
+                    d[pos] = b
+                    cases.append("best " + hexs(bytes(d)))
     impl, _ = ctx.correspond("best_encoding", cases)
-    tr = [("omode " + c.split()[1], o, {"case": c[:200]}) for c, o in zip(cases, impl)]
+    tr = [("omode " + c.split()[1], o, {"case": c}) for c, o in zip(cases, impl)]
     ctx.oracle("iso_mode", tr)
     al = ["alnum %d" % c for c in range(256)]
     ctx.correspond("alnum_table", al)
@@ -777,6 +804,11 @@ def run_C09(ctx):
     for b in range(256):
         bc.append(build_case(None, 1, None, None, b"AB" + bytes([b])))
         bc.append(build_case(None, 1, None, None, b"12" + bytes([b]) + b"34567890"))
+    # automatic mode at the V40 capacities of the densest mode that applies (must build and decode)
+    for m, caps40 in ((0, (3057, 3993, 5596, 7089)), (1, (1852, 2420, 3391, 4296)), (2, (1273, 1663, 2331, 2953))):
+        for e, n in zip((3, 2, 1, 0), caps40):
+            for nn in ((n,) if ctx.quick else (n - 1, n)):
+                bc.append(build_case(None, e, None, None, payload(rng, m, nn)))
     impl, _ = ctx.correspond("build", bc)
     no_panic(ctx, "build", bc, impl)
     symbol_oracles(ctx, bc, impl, ["decode"])
@@ -796,11 +828,11 @@ def run_C10(ctx):
                 for v in range(40):
                     lens |= {cp[m][e][v], cp[m][e][v] + 1}
                 lens = sorted(lens)
-                if ctx.quick:
-                    lens = lens[::4] + lens[-3:]
+                sub = set(lens[::4] + lens[-3:])
                 for n in lens:
                     for kind in (["random", "zeros", "ff", "pad"] if m == 2 else ["random", "zeros"]):
-                        if ctx.quick and kind != "random" and n % 3:
+                        # quick: every threshold with a random payload, the special payloads on a subsample
+                        if ctx.quick and kind != "random" and (n % 3 or n not in sub):
                             continue
                         cases.append(build_case(m, e, None, None, payload(rng, m, n, kind)))
         step = 97 if ctx.quick else 7
@@ -813,7 +845,7 @@ def run_C10(ctx):
     no_panic(ctx, "build", cases, impl)
     for c, o in zip(cases, impl):
         if not (o.startswith("OK ") or o in ("ERR1", "ERR2")):
-            ctx.direct_failure("total", {"case": c[:400]}, "outcome is neither Ok nor a documented error: " + o[:60])
+            ctx.direct_failure("total", {"case": c}, "outcome is neither Ok nor a documented error: " + o[:60])
     # negative controls: the predicate must be able to say PANIC
     neg = [build_case(0, None, None, None, b"12a4"), build_case(1, None, None, None, b"abc"),
            "div %s %s" % (hexs(bytes(200)), hexs(bytes(100)))]
@@ -863,7 +895,7 @@ def run_C11(ctx):
         try:
             pen = int(got)
         except ValueError:
-            ctx.direct_failure("iso_penalty", {"case": c[:300]}, "oracle output " + got[:60])
+            ctx.direct_failure("iso_penalty", {"case": c}, "oracle output " + got[:60])
             continue
         per.setdefault(c, {"chosen": chosen, "pens": {}, "used": {}})
         per[c]["pens"][k] = pen
@@ -871,9 +903,44 @@ def run_C11(ctx):
     ctx.count_oracle("selection_minimal", len(per))
     for c, d in per.items():
         if d["used"] != d["pens"]:
-            ctx.direct_failure("ranking_score", {"case": c[:300]}, "score used for ranking %s differs from the documented penalty %s" % (d["used"], d["pens"]))
+            ctx.direct_failure("ranking_score", {"case": c}, "score used for ranking %s differs from the documented penalty %s" % (d["used"], d["pens"]))
         elif len(d["pens"]) != 8 or d["pens"][d["chosen"]] != min(d["pens"].values()):
-            ctx.direct_failure("selection_minimal", {"case": c[:300]}, "chosen mask %d, penalties %s" % (d["chosen"], d["pens"]))
+            ctx.direct_failure("selection_minimal", {"case": c}, "chosen mask %d, penalties %s" % (d["chosen"], d["pens"]))
+    # bulk witness search on small symbols (implementation + documented-penalty oracle only; the model is not run): a
+    # deviation of the ranking score that matters only when two candidates are nearly tied needs many selections to show
+    bulk = []
+    for i in range(2500 if ctx.quick else 60000):
+        m = rng.choice([0, 1, 2, 2])
+        bulk.append(build_case(None, rng.randrange(4), None, None, payload(rng, m, rng.randrange(1, 30), "ascii" if m == 2 else "random"), "cands"))
+    bulk.append(build_case(None, 0, None, None, b"\x00" * 106, "cands"))
+    bo = ctx.run_impl("cands", bulk)
+    btr, bmeta = [], []
+    for c, o in zip(bulk, bo):
+        q = o.split()
+        if len(q) < 3 or q[0] != "OK":
+            continue
+        for tok in q[3:]:
+            k, sc_, hx = tok.split(":")
+            btr.append("openalty %s %s" % (q[2], hx))
+            bmeta.append((c, int(q[1]), int(k), int(sc_)))
+    bouts = run_exe(FQM, btr, "o_penb")
+    ctx.count_oracle("iso_penalty", len(bouts))
+    bper = {}
+    for (c, chosen, k, s_), got in zip(bmeta, bouts):
+        try:
+            pen = int(got)
+        except ValueError:
+            ctx.direct_failure("iso_penalty", {"case": c}, "oracle output " + got[:60])
+            continue
+        d = bper.setdefault(c, {"chosen": chosen, "pens": {}, "used": {}})
+        d["pens"][k] = pen
+        d["used"][k] = s_
+    ctx.count_oracle("selection_minimal", len(bper))
+    for c, d in bper.items():
+        if d["used"] != d["pens"]:
+            ctx.direct_failure("ranking_score", {"case": c}, "score used for ranking %s differs from the documented penalty %s" % (d["used"], d["pens"]))
+        elif len(d["pens"]) != 8 or d["pens"][d["chosen"]] != min(d["pens"].values()):
+            ctx.direct_failure("selection_minimal", {"case": c}, "chosen mask %d, penalties %s" % (d["chosen"], d["pens"]))
     # forced mask overrides
     fc = []
     for i in range(24 if ctx.quick else 400):
@@ -883,7 +950,7 @@ def run_C11(ctx):
     for c, o in zip(fc, fi):
         b = parse_build_out(o)
         if b is None or b["k"] != int(c.split()[4]):
-            ctx.direct_failure("forced_mask", {"case": c[:300]}, o[:40])
+            ctx.direct_failure("forced_mask", {"case": c}, o[:40])
     symbol_oracles(ctx, fc, fi, ["format"])
     # scanners on raw lines / matrices
     lc = []
@@ -901,6 +968,26 @@ def run_C11(ctx):
         dens = rng.random()
         bs = bytes((1 if rng.random() < dens else 0) | ((0 if rng.random() < 0.85 else rng.randrange(1, 8)) << 1) for _ in range(sz * sz))
         sc.append("score %d %s" % (sz, hexs(bs)))
+    # the dark-ratio term at every table index: for each percentage p the smallest dark count that reaches p and the count
+    # just below it, with the last (bottom-right) / first cell forced dark or light -- a mis-counted module or a wrong table
+    # entry shows as a different score on one of these
+    for sz in ([21] if ctx.quick else [21, 25, 33]):
+        tot = sz * sz
+        for pc in range(0, 101):
+            hi = (pc * tot + 99) // 100
+            for darks in (hi - 1, hi):
+                if darks < 1 or darks >= tot:
+                    continue
+                for last in (0, 1):
+                    cells = [0] * tot
+                    cells[-1] = last
+                    cells[0] = rng.randrange(2)
+                    need = darks - cells[-1] - cells[0]
+                    if need < 0 or need > tot - 2:
+                        continue
+                    for j in rng.sample(range(1, tot - 1), need):
+                        cells[j] = 1
+                    sc.append("score %d %s" % (sz, hexs(bytes(cells))))
     simpl, _ = ctx.correspond("score", sc)
     tr = []
     for c, o in zip(sc, simpl):
@@ -908,14 +995,14 @@ def run_C11(ctx):
         q = o.split()
         if len(q) == 6:
             # implementation: line col patt dark squares total ; spec parts: rows+cols runs, 40*windows, ratio
-            tr.append(("openparts %s %s" % (p[1], p[2]), "%d %s %s" % (int(q[0]) + int(q[1]), q[2], q[3]), {"case": c[:300]}))
+            tr.append(("openparts %s %s" % (p[1], p[2]), "%d %s %s" % (int(q[0]) + int(q[1]), q[2], q[3]), {"case": c}))
     ctx.oracle("penalty_parts", tr)
     limpl = ctx.run_impl("line", lc[:400])
     tr = []
     for c, o in zip(lc[:400], limpl):
         q = o.split()
         if len(q) == 2:
-            tr.append(("openline %s" % c.split()[1], "%s %s" % (q[0], q[1]), {"case": c[:200]}))
+            tr.append(("openline %s" % c.split()[1], "%s %s" % (q[0], q[1]), {"case": c}))
     ctx.oracle("line_spec", tr)
 
 
@@ -940,7 +1027,7 @@ def run_C16(ctx):
         n = int(p[1])
         bits = [b & 1 for b in bytes.fromhex(p[2])]
         if not o.startswith("OK "):
-            ctx.direct_failure("terminal_decode", {"case": c[:200]}, o[:60])
+            ctx.direct_failure("terminal_decode", {"case": c}, o[:60])
             continue
         cps = [int(x, 16) for x in o.split()[1].split(",")]
         text = "".join(chr(x) for x in cps)
@@ -965,7 +1052,7 @@ def run_C16(ctx):
                 if not ok:
                     break
         if not ok:
-            ctx.direct_failure("terminal_decode", {"case": c[:200]}, "text does not decode back to the matrix with a one-module light border")
+            ctx.direct_failure("terminal_decode", {"case": c}, "text does not decode back to the matrix with a one-module light border")
     bc = gen_builds(ctx, 20 if ctx.quick else 300)
     ctx.correspond("build", bc)
 
@@ -974,7 +1061,31 @@ def run_C16(ctx):
 # ------------------------------------------------------------------------------------------ C12 / C18 (svg stream)
 def rgba_hex(rng, alpha=None):
     a = alpha if alpha is not None else rng.choice([255, 255, 255, 0, 128, rng.randrange(256)])
+    if rng.random() < 0.5:
+        # palette channels: extreme / repeated bytes, so that equal colours and special byte patterns do occur
+        ch = lambda: rng.choice([0, 255, 255, 128])  # noqa
+        return "%02x%02x%02x%02x" % (ch(), ch(), ch(), a if alpha is not None else rng.choice([255, 255, 0, 128]))
     return "%02x%02x%02x%02x" % (rng.randrange(256), rng.randrange(256), rng.randrange(256), a)
+
+
+def image_string(rng):
+    """an image reference composed from parts: scheme / media type / parameters / encoding marker / body, with
+    XML-special characters possible in every part"""
+    sp = ["&", "<", ">", '"', "'", "&amp;", "\t", "\n", "\r", " ", "]]>", "&#38;", "\u00e9", "%20", "\U0001F680"]
+    def junk(k):
+        return "".join(rng.choice(sp + list("abcXYZ019-_./=;,:+")) for _ in range(rng.randrange(k)))
+    kind = rng.randrange(5)
+    if kind == 0:
+        return "data:image/%s%s;base64,%s" % (rng.choice(["png", "svg+xml", "jpeg"]),
+                                              rng.choice(["", ";name=\"logo.png\"", ";charset=utf-8", ";x=" + junk(4)]),
+                                              rng.choice(["iVBORw0KGgo=", "AAAA", junk(6)]))
+    if kind == 1:
+        return "data:%s,%s" % (rng.choice(["", "text/plain", "image/svg+xml;utf8", "image/png;base64" + junk(3)]), junk(12))
+    if kind == 2:
+        return rng.choice(["https://", "http://", "//", "file:///"]) + "x.y/" + junk(10) + rng.choice(["", "?a=1&b=2", "#f"])
+    if kind == 3:
+        return rng.choice(["./", "/", "..\\", "C:\\"]) + junk(10) + rng.choice([".png", ".svg", ""])
+    return junk(16)
 
 
 IMAGE_STRINGS = ["https://example.com/logo.png", "data:image/png;base64,iVBORw0KGgo=", "./assets/a b.svg",
@@ -1004,21 +1115,26 @@ def gen_svg_cases(ctx, count, versions, with_image=True):
         v = vs[i % len(vs)]
         n, hx = mats[v]
         opts = []
+        # colours of one case come from a small pool half of the time (equal colours on different elements), and the pool
+        # may contain the defaults
+        pool = [rgba_hex(rng) for _ in range(2)] + ["ffffffff", "000000ff"]
+        reuse = rng.random() < 0.5
+        col = (lambda: rng.choice(pool)) if reuse else (lambda: rgba_hex(rng))
         if rng.random() < 0.8:
             opts.append("margin=%d" % rng.choice([0, 1, 2, 4, 7, 16]))
         if rng.random() < 0.5:
-            opts.append("bg=" + rgba_hex(rng))
+            opts.append("bg=" + col())
         if rng.random() < 0.5:
-            opts.append("fg=" + rgba_hex(rng))
+            opts.append("fg=" + col())
         nl = rng.choice([0, 1, 1, 2, 3])
         for _ in range(nl):
             if rng.random() < 0.5:
                 opts.append("shape=%d" % rng.randrange(6))
             else:
-                opts.append("shapec=%d:%s" % (rng.randrange(6), rgba_hex(rng)))
+                opts.append("shapec=%d:%s" % (rng.randrange(6), col()))
         dist["layers"][str(nl)] = dist["layers"].get(str(nl), 0) + 1
         if with_image and rng.random() < 0.5:
-            img = rng.choice(IMAGE_STRINGS)
+            img = rng.choice(IMAGE_STRINGS) if rng.random() < 0.5 else image_string(rng)
             if img:
                 opts.append("image=" + hexs(img))
                 dist["image"] += 1
@@ -1027,7 +1143,7 @@ def gen_svg_cases(ctx, count, versions, with_image=True):
             if rng.random() < 0.5:
                 opts.append("ishape=%d" % rng.randrange(3))
             if rng.random() < 0.4:
-                opts.append("ibg=" + rgba_hex(rng))
+                opts.append("ibg=" + col())
             if rng.random() < 0.3:
                 opts.append("isize=%s" % rng.choice(["5", "7.5", "9.25", "3", "11"]))
             if rng.random() < 0.3:
@@ -1063,14 +1179,14 @@ def run_C12(ctx):
     ctx.count_oracle("render_pure", len(impl))
     for c, o in zip(cases, impl):
         if o.startswith("OK ") and not o.endswith(" 1"):
-            ctx.direct_failure("render_pure", {"case": c[:300]}, "second to_str differs or matrix modified")
+            ctx.direct_failure("render_pure", {"case": c}, "second to_str differs or matrix modified")
     # spec oracle: the XML subset parser on the implementation's string equals the expected document
     tr = []
     for c, o in zip(cases, impl):
         p = c.split()
         q = o.split()
         if len(q) == 3 and q[0] == "OK":
-            tr.append(("oxml %s %s %s %s" % (p[1], p[2], q[1], " ".join(p[3:])), lambda got: got == "1", {"case": c[:3000]}))
+            tr.append(("oxml %s %s %s %s" % (p[1], p[2], q[1], " ".join(p[3:])), lambda got: got == "1", {"case": c}))
     probe = run_exe(FQM, ["oxmlparse 3c612f3e"], "probe")
     if probe and probe[0].startswith("MODEL-UNSUPPORTED"):
         ctx.notes.append("spec XML oracle stream not available in this driver build; skipped")
@@ -1085,10 +1201,31 @@ def run_C13(ctx):
     mats = symbol_matrices(ctx, versions)
     cases = []
     colours = [("000000ff", "ffffffff"), ("102030ff", "f0e0d0ff"), ("000000ff", "ffffff00"), ("ff0000ff", "00ff00ff"), ("0000ffff", "ffffff80")]
+    # channel values from a small palette (00 / ff / 80 / one random value): extreme and repeated bytes, opaque backgrounds
+    # with a zero channel, inverted codes
+    def pal():
+        return "%02x" % rng.choice([0, 255, 128, rng.randrange(256)])
+    for _ in range(40):
+        fg_ = pal() + pal() + pal() + "ff"
+        bg_ = pal() + pal() + pal() + rng.choice(["ff", "ff", "00", "80"])
+        if fg_[:6] != bg_[:6]:
+            colours.append((fg_, bg_))
+    colours += [("ffffffff", "000000ff"), ("ffff00ff", "ff0000ff"), ("00ff00ff", "ffff00ff")]
+    # colours given as CSS strings (Color: From<&str> / From<String>), with the rgba they denote
+    css = [("red", "ff0000ff"), ("white", "ffffffff"), ("black", "000000ff"), ("blue", "0000ffff"), ("yellow", "ffff00ff"),
+           ("#f00", "ff0000ff"), ("rgb(0,128,0)", "008000ff"), ("#00FF00", "00ff00ff"), ("#102030", "102030ff"), ("#0000ff80", "0000ff80")]
+    ci = 0
     for v, (n, hx) in sorted(mats.items()):
         for sh in range(6):
             margin = rng.choice([0, 1, 2, 4])
             fg, bg = rng.choice(colours)
+            if sh in (0, 3):
+                # string colours on these layers (the option replaces fg= / bg=)
+                f1, f2 = css[ci % len(css)], css[(ci + 3) % len(css)]
+                ci += 1
+                if f1[1][:6] != f2[1][:6]:
+                    side = n + 2 * margin
+                    cases.append("raster %d %s shape=%d margin=%d fgs=%s:%s bgs=%s:%s fitw=%d" % (n, hx, sh, margin, hexs(f1[0].encode()), f1[1], hexs(f2[0].encode()), f2[1], side * 4))
             side = n + 2 * margin
             # original scale (1 px per module): exact for squares
             if sh == 0:
@@ -1102,7 +1239,19 @@ def run_C13(ctx):
                 a_, b_ = (side * 6, side * 4) if sh % 2 else (side * 4, side * 5)
                 cases.append("raster %d %s shape=%d margin=%d fitw=%d fith=%d" % (n, hx, sh, margin, a_, b_))
     if ctx.quick:
-        cases = cases[:90]
+        cases = cases[:110]
+    # histories of fit_width / fit_height calls (last value of each wins; the pixmap is the largest square within both)
+    if mats:
+        n, hx = mats[min(mats)]
+        side = n + 8
+        import itertools
+        pats = [p for k in (2, 3, 4) for p in itertools.product("wh", repeat=k)]
+        if ctx.quick:
+            pats = [p for p in pats if len(p) < 4] + rng.sample([p for p in pats if len(p) == 4], 4)
+        for pat in pats:
+            for _ in range(1 if ctx.quick else 3):
+                vals = [side * rng.choice([4, 5, 6, 7, 8]) + rng.choice([0, 0, 3]) for _ in pat]
+                cases.append("raster %d %s shape=0 margin=4 " % (n, hx) + " ".join("fit%s=%d" % (a, b) for a, b in zip(pat, vals)))
     impl, _ = ctx.correspond("raster", cases)
     no_panic(ctx, "raster", cases, impl)
     ctx.count_oracle("pixel_classes", len(cases))
@@ -1110,17 +1259,17 @@ def run_C13(ctx):
         q = o.split()
         if len(q) == 6 and q[0] == "OK":
             if q[1] != q[2]:
-                ctx.direct_failure("square_pixmap", {"case": c[:300]}, "pixmap is %sx%s" % (q[1], q[2]))
+                ctx.direct_failure("square_pixmap", {"case": c}, "pixmap is %sx%s" % (q[1], q[2]))
             opts = dict(o.split("=", 1) for o in c.split()[3:])
             side = int(c.split()[1]) + 2 * int(opts.get("margin", 4))
             fw, fh = opts.get("fitw"), opts.get("fith")
             want = min(int(fw), int(fh)) if (fw and fh) else int(fw) if fw else int(fh) if fh else side
             if int(q[1]) != want:
-                ctx.direct_failure("pixmap_side", {"case": c[:300]}, "pixmap side %s, the largest square satisfying the request is %d" % (q[1], want))
+                ctx.direct_failure("pixmap_side", {"case": c}, "pixmap side %s, the largest square satisfying the request is %d" % (q[1], want))
             if q[3] != "0" or q[4] != "0":
-                ctx.direct_failure("pixel_classes", {"case": c[:300]}, "centre mismatches %s, full-cell mismatches %s" % (q[3], q[4]))
+                ctx.direct_failure("pixel_classes", {"case": c}, "centre mismatches %s, full-cell mismatches %s" % (q[3], q[4]))
             if q[5] != "1":
-                ctx.direct_failure("png_roundtrip", {"case": c[:300]}, "PNG bytes do not decode to the pixmap")
+                ctx.direct_failure("png_roundtrip", {"case": c}, "PNG bytes do not decode to the pixmap")
 
 
 # ------------------------------------------------------------------------------------------ C14
@@ -1160,7 +1309,7 @@ def run_C14(ctx):
     ctx.count_oracle("shared_vs_fresh_builder", len(cases))
     for c, o in zip(cases, impl):
         if o.startswith("OK") and any(tok.startswith("0:") for tok in o.split()[1:]):
-            ctx.direct_failure("shared_vs_fresh_builder", {"case": c[:300]}, "a build on a reused builder differs from a fresh builder with the same final options: " + o[:80])
+            ctx.direct_failure("shared_vs_fresh_builder", {"case": c}, "a build on a reused builder differs from a fresh builder with the same final options: " + o[:80])
     # order independence: the same build cases in one process, in two different orders, must give the same outputs
     oc = []
     for i in range(60 if ctx.quick else 600):
@@ -1173,7 +1322,7 @@ def run_C14(ctx):
     ctx.count_oracle("order_independence", len(oc))
     for c, x, y in zip(oc, a1, a2):
         if x != y:
-            ctx.direct_failure("order_independence", {"case": c[:300], "note": "same process, different preceding builds"}, "outputs differ: %s vs %s" % (x[:60], y[:60]))
+            ctx.direct_failure("order_independence", {"case": c, "note": "same process, different preceding builds"}, "outputs differ: %s vs %s" % (x[:60], y[:60]))
     # renderer option order (everything except the shape layers is last-value-wins, so order must not matter)
     so = gen_svg_cases(ctx, 20 if ctx.quick else 300, [1, 6], with_image=True)
     so2 = []
@@ -1187,7 +1336,7 @@ def run_C14(ctx):
     ctx.count_oracle("setter_order_irrelevant", len(so))
     for c, c2, x, y in zip(so, so2, r1, r2):
         if x != y:
-            ctx.direct_failure("setter_order_irrelevant", {"case": c[:400], "reordered": c2[:400]}, "SVG output depends on the order of last-value-wins setters")
+            ctx.direct_failure("setter_order_irrelevant", {"case": c, "reordered": c2}, "SVG output depends on the order of last-value-wins setters")
     th = ["threads %d %d %d" % (nt, 3 if ctx.quick else 12, ctx.seed * 31 + nt) for nt in ([1, 2, 4, 8, 16] if ctx.quick else range(1, 17))]
     impl, _ = ctx.correspond("threads", th)
     ctx.count_oracle("threads_equal_sequential", len(th))
@@ -1195,13 +1344,35 @@ def run_C14(ctx):
         q = o.split()
         if len(q) != 3 or q[2] != "0":
             ctx.direct_failure("threads_equal_sequential", {"case": c}, o[:60])
+    # raster renderer: histories of fit_width / fit_height calls -- the pixmap side depends on the LAST value of each only
+    fm = symbol_matrices(ctx, [0])
+    if fm:
+        n, hx = fm[0]
+        side = n + 8
+        import itertools
+        fcases, want = [], []
+        pats = [p_ for k in (1, 2, 3, 4) for p_ in itertools.product("wh", repeat=k)]
+        for pat in pats:
+            for _ in range(1 if ctx.quick else 4):
+                vals = [side * rng.choice([4, 5, 6, 7]) + rng.choice([0, 0, 5]) for _ in pat]   # >= 4 px per module
+                last = {}
+                for a, b in zip(pat, vals):
+                    last[a] = b
+                fcases.append("raster %d %s shape=0 margin=4 " % (n, hx) + " ".join("fit%s=%d" % (a, b) for a, b in zip(pat, vals)))
+                want.append(min(last.values()))
+        fi, _ = ctx.correspond("raster", fcases)
+        ctx.count_oracle("fit_last_value_wins", len(fcases))
+        for c, o, w in zip(fcases, fi, want):
+            q = o.split()
+            if len(q) < 3 or q[0] != "OK" or int(q[1]) != w or int(q[2]) != w:
+                ctx.direct_failure("fit_last_value_wins", {"case": c}, "pixmap %s, the final fit values ask for a square of side %d" % (o[:40], w))
     # rendering does not modify the QR code and is repeatable: last field of the svg stream
     sc = gen_svg_cases(ctx, 20 if ctx.quick else 300, [0, 3, 10], with_image=False)
     si, _ = ctx.correspond("svg", sc)
     ctx.count_oracle("render_pure", len(sc))
     for c, o in zip(sc, si):
         if o.startswith("OK ") and not o.endswith(" 1"):
-            ctx.direct_failure("render_pure", {"case": c[:300]}, "second to_str differs or matrix modified")
+            ctx.direct_failure("render_pure", {"case": c}, "second to_str differs or matrix modified")
     if ctx.purity:
         ctx.direct_failure("purity_scan", {"case": "lexical scan of /repo/src"}, "hidden-state candidates: %s" % ctx.purity[:5])
 
@@ -1327,7 +1498,7 @@ def run_C17(ctx):
         if b is None:
             ctx.count_oracle("wasm_svg_equals_native", 1)
             if o != "OK -":
-                ctx.direct_failure("wasm_svg_equals_native", {"case": c[:300]}, "content cannot be encoded but qr_svg did not return the empty string")
+                ctx.direct_failure("wasm_svg_equals_native", {"case": c}, "content cannot be encoded but qr_svg did not return the empty string")
             continue
         so = ["shape=" + opts["shape"], "margin=" + opts["margin"]]
         if "bg" in opts:
@@ -1353,9 +1524,9 @@ def run_C17(ctx):
         q = so.split()
         if len(q) == 3 and q[0] == "OK":
             if o != "OK " + q[1]:
-                ctx.direct_failure("wasm_svg_equals_native", {"case": c[:400]}, "qr_svg output differs from the native SvgBuilder output for the same settings")
+                ctx.direct_failure("wasm_svg_equals_native", {"case": c}, "qr_svg output differs from the native SvgBuilder output for the same settings")
         else:
-            ctx.direct_failure("wasm_svg_equals_native", {"case": c[:400]}, "native builder: " + so[:40])
+            ctx.direct_failure("wasm_svg_equals_native", {"case": c}, "native builder: " + so[:40])
 
 
 # ------------------------------------------------------------------------------------------ C18
@@ -1371,13 +1542,20 @@ def run_C18(ctx):
             for margin in (range(0, 17) if not ctx.quick else [[0, 4, 16, 3][v % 4]]):
                 cases.append("svg %d %s margin=%d image=%s ishape=%d" % (n, hx, margin, hexs("i.png"), ish))
                 meta.append((v, n, margin, None, None, None))
-    for _ in range(30 if ctx.quick else 600):
+    for _ in range(120 if ctx.quick else 3000):
         v = rng.choice(sorted(mats))
         n, hx = mats[v]
-        margin = rng.choice([0, 2, 4])
-        size = rng.choice([None, 3.0, 5.0, 7.5, 9.25])
-        gap = rng.choice([None, 0.0, 1.0, 0.5, 1.75])
-        pos = rng.choice([None, (10.0, 10.0), (12.5, 11.5)])
+        margin = rng.choice([0, 2, 4, 1, 7])
+        # overrides are multiples of 0.25 (exact in f64, so the fixed-point model is exact) over a wide range: tiny, ordinary,
+        # as large as the symbol and beyond it; positions anywhere on (and slightly off) the canvas
+        def q4(lo, hi):
+            return rng.randrange(int(lo * 4), int(hi * 4) + 1) / 4.0
+        r = rng.random()
+        size = None if r < 0.2 else q4(0.25, 12) if r < 0.6 else q4(12, n) if r < 0.8 else q4(n, 2 * n + 8)
+        r = rng.random()
+        gap = None if r < 0.25 else q4(0, 3) if r < 0.7 else q4(3, n / 2.0)
+        r = rng.random()
+        pos = None if r < 0.4 else (q4(0, n + 2 * margin), q4(0, n + 2 * margin)) if r < 0.9 else (q4(n, 2 * n), q4(0, 5))
         o = "svg %d %s margin=%d image=%s ishape=%d" % (n, hx, margin, hexs("i.png"), rng.randrange(3))
         if size is not None:
             o += " isize=%s" % size
@@ -1394,13 +1572,13 @@ def run_C18(ctx):
     for c, o, (v, n, margin, size, gap, pos) in zip(cases, impl, meta):
         q = o.split()
         if len(q) != 3 or q[0] != "OK":
-            ctx.direct_failure("frame_geometry", {"case": c[:200]}, o[:40])
+            ctx.direct_failure("frame_geometry", {"case": c}, o[:40])
             continue
         text = bytes.fromhex(q[1]).decode("utf-8")
         rects = _re.findall(r'<rect x="([-0-9.]+)" y="([-0-9.]+)" width="([-0-9.]+)" height="([-0-9.]+)"', text)
         imgs = _re.findall(r'<image x="([-0-9.]+)" y="([-0-9.]+)" width="([-0-9.]+)" height="([-0-9.]+)"', text)
         if len(rects) != 1 or len(imgs) != 1:
-            ctx.direct_failure("frame_geometry", {"case": c[:200]}, "expected one frame rect and one image element")
+            ctx.direct_failure("frame_geometry", {"case": c}, "expected one frame rect and one image element")
             continue
         fx, fy, fw, fh = map(float, rects[0])
         ix, iy, iw, ih = map(float, imgs[0])
@@ -1440,14 +1618,17 @@ def run_C18(ctx):
             elif abs((fx + fw / 2) - S / 2) > 0.5 + tol:
                 bad.append("frame not centred on the symbol")
         if bad:
-            ctx.direct_failure("frame_geometry", {"case": c[:300]}, "; ".join(bad))
+            ctx.direct_failure("frame_geometry", {"case": c}, "; ".join(bad))
 
 
 # ------------------------------------------------------------------------------------------ C19
 def run_C19(ctx):
     wd = os.path.join(WORK, "files")
+    import shutil
+    shutil.rmtree(wd, ignore_errors=True)      # outputs of earlier runs
     os.makedirs(wd, exist_ok=True)
-    classes = ["ok", "overwrite", "missingdir", "isdir", "devfull", "procfs", "longname", "nul"]
+    classes = ["ok", "overwrite", "bare", "missingdir", "isdir", "devfull", "procfs", "longname", "nul",
+               "empty", "root", "dot", "dotdot", "trailslash", "relmissing"]
     cases = ["file %s %s %s %s" % (k, cl, wd, sz) for k in ("svg", "png") for cl in classes for sz in ("small", "large")]
     cases += ["file svg fsize %s %s" % (wd, sz) for sz in ("small", "large")]   # both SVG documents exceed the 1 KiB limit
     if not ctx.quick:
@@ -1457,7 +1638,7 @@ def run_C19(ctx):
     ctx.count_oracle("all_or_error", len(cases))
     for c, o in zip(cases, impl):
         cl = c.split()[2]
-        if cl in ("ok", "overwrite"):
+        if cl in ("ok", "overwrite", "bare"):
             if o != "RET_OK same=1":
                 ctx.direct_failure("all_or_error", {"case": c}, "write to a writable path: " + o)
         else:
@@ -1498,7 +1679,7 @@ REGISTRY = {
     "C18": {"run": run_C18, "tables": [],
             "rule": "default image frames for versions x 3 background shapes x margins 0..16 (quick: a spread) + sampled overrides; geometry read back from the attributes of the implementation's SVG"},
     "C19": {"run": run_C19, "tables": [],
-            "rule": "to_file of SVG and PNG under 7 path classes: writable, missing directory, path is a directory, /dev/full (write-time ENOSPC), /proc (create-time), over-long name, NUL in path"},
+            "rule": "to_file of SVG and PNG under 15 path classes: writable fresh / existing longer file / bare file name, missing directory (absolute and relative), path is a directory (work dir, /, ., ..), trailing slash, empty path, /dev/full (write-time ENOSPC), /proc (create-time), over-long name, NUL in path, file-size limit after a partial write"},
     "C15": {"run": run_C15, "corpus": corpus_builds(["labels"]), "tables": ["alignment", "version_size"],
             "rule": "all 40 blank symbols + builds; every label compared with the ISO region map"},
     "C16": {"run": run_C16, "tables": [],
